@@ -3,7 +3,7 @@
 # Copies /tmp/mut/<PROP>-out/{patch,demo,meta}<PROP>_<k>.* into /verif/seeded/<PROP>_<k>/ after
 # confirming the change in a scratch worktree (tools/confirm_seeded.sh).
 P="$1"; K="$2"; shift 2
-SRC="/tmp/mut/$P-out"; DST="/verif/seeded/${P}_$K"
+SRC="${SEEDED_SRC:-/tmp/mut/$P-out}"; DST="/verif/seeded/${P}_$K"
 [ -f "$SRC/patch${P}_$K.diff" ] && [ -f "$SRC/demo${P}_$K.rs" ] || { echo "$P_$K: deliverables missing"; exit 2; }
 RES=$(/verif/tools/confirm_seeded.sh "$SRC/patch${P}_$K.diff" "$SRC/demo${P}_$K.rs" "$@" 2>&1 | tail -1)
 echo "${P}_$K: $RES"
